@@ -73,6 +73,9 @@ class ConfigurationDict(UserDict):
             # only set valid keys
             if self.section:
                 typ = dfn.get_config_value_type(self.section, key)
+                if typ is str and isinstance(value, bytes):
+                    # string-valued keys: decode bytes (e.g. HDF5 attributes)
+                    value = value.decode("utf-8")
                 if typ is not None and not isinstance(value, typ):
                     warnings.warn(
                         f"Type of configuration key [{self.section}]: {key} "
